@@ -85,7 +85,11 @@ fn boundary_val(s: &Shape, n: usize, rng: &mut Rng) -> Option<Val> {
             }
             None
         }
-        Shape::Ulist(e) => Some(Val::Useq(vec![boundary_val(e, n, rng)?])),
+        Shape::Ulist(e) => {
+            // a small element first: the oversized one is met after the header AND an element
+            let big = boundary_val(e, n, rng)?;
+            Some(Val::Useq(vec![crate::gen::gen_val(e, rng, 2), big]))
+        }
         _ => None,
     }
 }
@@ -137,6 +141,18 @@ pub fn generate(reg: &Registry, args: &Args) -> Vec<Vec<String>> {
             cases.push(l);
             id += 1;
         }
+        // test buffer after a resize through data_mut(): grow and shrink
+        if !is_acct {
+            let n_pairs = if args.thorough() { 20 } else { 5 };
+            let mut l = vec![format!("case {id} {name} random resize"), header.clone()];
+            for k in 0..n_pairs {
+                let v1 = if k == 0 { default_val(&shape) } else { gen_val(&shape, &mut r, [1usize, 4, 2, 6][k % 4]) };
+                let v2 = if k == 1 { default_val(&shape) } else { gen_val(&shape, &mut r, [5usize, 1, 3, 2][k % 4]) };
+                l.push(format!("tbr {} | {}", show_val(&shape, &v1), show_val(&shape, &v2)));
+            }
+            cases.push(l);
+            id += 1;
+        }
         // prefix boundaries: 255 / 256 elements under a u8 prefix, 65535 / 65536 under u16 (thorough)
         if let Some(lw) = first_lw(&shape) {
             let mut ns = vec![];
@@ -153,10 +169,14 @@ pub fn generate(reg: &Registry, args: &Args) -> Vec<Vec<String>> {
                         continue;
                     }
                     let vt = show_val(&shape, &v);
-                    let mut l = vec![format!("case {id} {name} boundary {n}"), header.clone(), format!("enc {vt}"), format!("sert {vt}")];
+                    let mut l = vec![format!("case {id} {name} boundary {n}"), header.clone(), format!("enc {vt}"), format!("sert {vt}"), format!("tbs {vt}")];
                     if crate::sx::fits(&shape, &v) {
                         l.push(format!("dec {}", hex(&ref_bytes(&shape, &v).0)));
-                        l.push(format!("tbs {vt}"));
+                    } else {
+                        // which error comes first depends on how much was written before the unfit list
+                        for cap in [0usize, 1, 2, 3, 4, 8, 9, 11, 12, 13, 15, 16, 17, 19, 20, 21, 22, 23, 24, 30, 40] {
+                            l.push(format!("encs {cap} {vt}"));
+                        }
                     }
                     cases.push(l);
                     id += 1;
